@@ -81,7 +81,8 @@ func convertReflectValueToTypeContext(ctx context.Context, rv reflect.Value, rt 
 			return ptrV, nil
 		}
 	}
-	if rv.Type() == interfaceType {
+	if rv.Kind() == reflect.Interface {
+		// a value boxed in interface{} or in another interface type (an element of a []error)
 		if rv.IsNil() {
 			// return nil of correct type
 			return reflect.Zero(rt), nil
